@@ -139,6 +139,24 @@ Theorem C19_end_loc_saturation_refuted :
   exists cs, col (end_loc true cs) = 65535 /\ col (end_loc true cs) <> out_true_col cs.
 Proof. exact end_loc_saturation_refuted. Qed.
 
+(** end_loc is compositional — the law behind Formatter::push (start = end_loc of the output
+    before the fragment, end = end_loc of the output after it): lines, chars and bytes add up,
+    but the column RESTARTS after the last line break of the fragment *)
+Theorem C19_out_true_col_app : forall s t,
+  out_true_col (s ++ t) = if existsb is_nl t then out_true_col t else out_true_col s + out_true_col t.
+Proof. exact out_true_col_app. Qed.
+Theorem C19_end_loc_app : forall s t,
+  nlen (filter is_nl (s ++ t)) <= U16MAX -> nlen (s ++ t) <= U32MAX -> seg_len (s ++ t) <= U32MAX ->
+  line (end_loc true (s ++ t)) = line (end_loc true s) + line (end_loc true t) /\
+  char_pos (end_loc true (s ++ t)) = char_pos (end_loc true s) + char_pos (end_loc true t) /\
+  byte_pos (end_loc true (s ++ t)) = byte_pos (end_loc true s) + byte_pos (end_loc true t) /\
+  col (end_loc true (s ++ t)) =
+    N.min (if existsb is_nl t then out_true_col t else out_true_col s + out_true_col t) U16MAX.
+Proof. exact end_loc_app. Qed.
+Theorem C19_push_additive_col_refuted :
+  exists s t, col (end_loc true (s ++ t)) <> N.min (col (end_loc true s) + col (end_loc true t)) U16MAX.
+Proof. exact push_additive_col_refuted. Qed.
+
 (** non-vacuity: "é", CR LF, "x" lexed as three tokens *)
 Example C19_nonvacuous :
   let i : input := [[(2, COther)]; [(1, CCr); (1, CNl)]; [(1, COther)]] in
@@ -176,3 +194,6 @@ Print Assumptions C19_combining_split_current.
 Print Assumptions C19_combining_split_refuted_pre.
 Print Assumptions C19_guard_err_span_valid.
 Print Assumptions C19_guard_err_span_refuted_pre.
+Print Assumptions C19_out_true_col_app.
+Print Assumptions C19_end_loc_app.
+Print Assumptions C19_push_additive_col_refuted.
